@@ -51,9 +51,11 @@ class Gen:
     def __init__(self, rng):
         self.rng = rng
         self.ncls = 0
+        self.top_pool = POOL
 
-    def names(self, n):
-        return self.rng.sample(POOL, n)
+    def names(self, n, pool=None):
+        pool = POOL if pool is None else pool
+        return self.rng.sample(pool, min(n, len(pool)))
 
     def class_fields(self, depth):
         """fields of a dataclass / parameters of a class: required ones first"""
@@ -83,10 +85,10 @@ class Gen:
             out.append(["C%d" % self.ncls, self.class_fields(depth)])
         return out
 
-    def level(self, depth, n, groups=True):
+    def level(self, depth, n, groups=True, pool=None):
         rng = self.rng
         fs = []
-        for name in self.names(n):
+        for name in self.names(n, pool):
             r = rng.random()
             if r < 0.35 or depth <= 0:
                 fs.append([name, ["arg", rng.random() < 0.4]])
@@ -105,8 +107,10 @@ class Gen:
         p = {"args": self.level(2, rng.randint(1, 4)), "sub": None}
         if rng.random() < 0.55:
             m = []
+            # the arguments of a subcommand do not reuse a top-level name of the parent parser (see ASSUMPTIONS)
+            pool = [n for n in POOL if n not in [a[0] for a in p["args"]]]
             for s in rng.sample(SUBNAMES, rng.randint(1, 3)):
-                m.append([s, self.level(1, rng.randint(0, 2))])
+                m.append([s, self.level(1, rng.randint(0, 2), pool=pool)])
             p["sub"] = {"req": rng.random() < 0.6, "dest": rng.choice(["subcommand", "cmd"]), "map": m}
         return p
 
